@@ -183,6 +183,42 @@ SURROUND = ['optimize.CombineContainers (tuple/callable arity merging, container
             'optimize.CombineReturnsAndExceptions, RemoveDuplicates, AbsorbMutableParameters, MergeTypeParameters: bounded native sweep only',
             'the visitor framework (visitors.py / pytd_visitors.py), Optimize\'s pass pipeline and its idempotence as a whole',
             'pytd._FlattenTypes / _SetOfTypes.__post_init__ (assumed constructor semantics A-CTOR)']
+def extra_obligations(repo):
+  """Frame: the optimiser passes are functions of their input -- no module- or class-level mutable container in the
+  optimiser modules is written by a function, and no function there is memoised process-wide.  (A memo keyed by class NAME
+  survives from one stub to the next; with it a pass can narrow a type depending on what was optimised before.)"""
+  import os
+  import z3
+  from contracts import c04_frames
+  from engine.core import Obligation
+  out = []
+  nfiles = 0
+  for rel in ('pytype/pytd/optimize.py', 'pytype/pytd/pytd_utils.py', 'pytype/pytd/visitors.py', 'pytype/pytd/pytd_visitors.py'):
+    path = os.path.join(repo, rel)
+    if not os.path.exists(path):
+      continue
+    nfiles += 1
+    text = open(path, encoding='utf-8').read()
+    _, memos = c04_frames.scan_file(rel, text)
+    for m in memos + c04_frames.scan_module_state(rel, text):
+      o = Obligation('C11/%s::%s/frame#no-state-across-calls' % (rel, m['expr'] if m['kind'] == 'module-state' else m['func']), 'frame', [],
+                     z3.BoolVal(False), line=m['line'],
+                     detail='%s `%s` keeps state from one Optimize() call to the next' % (m['kind'], m['expr']))
+      o.owner = rel
+      o.prechecked = True
+      o.status, o.backend, o.model = 'sat', 'frame-scan', 'process-wide state %s in %s (line %d)' % (m['expr'], rel, m['line'])
+      o.undecided_if_no_witness = True
+      out.append(o)
+  o = Obligation('C11/pytype/pytd/frame#no-state-across-calls', 'frame', [], z3.BoolVal(nfiles == 4),
+                 detail='the four optimiser modules were scanned for module/class-level mutable state and process-wide memos (%d found)' % nfiles)
+  o.owner = 'pytype/pytd'
+  o.prechecked = True
+  o.status, o.backend, o.model = ('proved' if nfiles == 4 else 'unknown'), 'frame-scan', None
+  o.undecided_if_no_witness = True
+  out.append(o)
+  return out
+
+
 NATIVE_IN_QUICK = True
 MUTANTS = [
     dict(name='join_keeps_nothing', file=UTILS_PY, old="    elif isinstance(t, pytd.NothingType):\n      pass\n", new=""),
